@@ -510,7 +510,9 @@ func (sf IntLatLngSnapper) MinEdgeVertexSeparation() s1.Angle {
 // SnapPoint returns a candidate snap site for the given point.
 func (sf IntLatLngSnapper) SnapPoint(point Point) Point {
 	input := LatLngFromPoint(point)
-	lat := s1.Angle(roundAngle(input.Lat * sf.from))
-	lng := s1.Angle(roundAngle(input.Lng * sf.from))
-	return PointFromLatLng(LatLng{lat * sf.to, lng * sf.to})
+	// The grid is in degrees (times 10^exponent); round in float64 so that
+	// large exponents cannot overflow an integer type.
+	lat := math.Round(input.Lat.Degrees() * float64(sf.from))
+	lng := math.Round(input.Lng.Degrees() * float64(sf.from))
+	return PointFromLatLng(LatLngFromDegrees(lat*float64(sf.to), lng*float64(sf.to)))
 }
